@@ -101,7 +101,20 @@ META = {
         deadline_quick=900, deadline_thorough=3400,
         parts={"loop": 8},
     ),
+    "C20": dict(
+        rule="(a) canary.NewUniqueSet driven directly: all operation sequences of length <=6 over {Add k, Remove k (k in 3 keys), Each, Each whose callback removes the visited element} (8^1+..+8^6 = 299,592 histories) against a slice-set reference; every history is replayed on a fresh set (explicit-state: the reference contents are the state). (b) the real knockDetector goroutine on the bubble's fake clock, probes injected through the real packet handlers (SYN, UDP to undecoded port, ICMP echo): all probe sequences of length <=3 (thorough 4) over a 6-probe alphabet from one source; bursts of 5/100/101/150 probes with repeated ports (tcp-only, udp-only, mixed); all interleavings of the probes of 2-4 sources (3+3, 2+2+2, 2+2+1+1, 1+1+1+1, 4+2) in three port assignments; 5 s / 6 s / 61 s clock jumps at every position (<=2 per history). After the burst the clock is advanced tick by tick until three ticks pass without a report. Oracle: per (source, destination) the union of portscan.ports over its reports = set of distinct protocol/port pairs probed; no pair twice within a report; without clock jumps each pair in exactly one report and at most one report per protocol group; no report names a source that sent nothing.",
+        bounds_quick="probe sequences <=3; interleavings of <=6 probes",
+        bounds_thorough="probe sequences <=4",
+        assumptions=COMMON_ASSUME + ["a (source, destination) burst is reported as one event per protocol group; the union of their port lists is compared with the set probed"],
+    ),
+    "C14": dict(
+        rule="raw listener through the verif hook in a bubble (fake clock: the 60 s socket read timeout is instantaneous); the client is an independent RFC 793 client + frame codec; after every injected frame the transmit ring is drained and every emitted frame decoded. Single connections: client ISN {0,1,2^31-1,2^31,2^32-2,2^32-1} x destination port {23,80,443,445,1433,6379,9200,8081} x source port {1,1024,65535} x payload length {0,1,2,3,255,256,1459,1460,2047,2048,4000} x segmentation patterns (all compositions for <=4 bytes; 1, 1+rest, rest+1, halves, thirds, 4 and 8 segments of odd/even lengths otherwise) x PSH on the last / on every segment, then FIN. Simultaneous connections: all frame interleavings of 2 peers (same ports), 1 peer with 2 ports, 2 peers on decoded ports, 3 peers, mirrored port pairs (thorough: 4 peers). Oracle: SYN answered by exactly one SYN-ACK acking ISN+1; every emitted frame mirrors addresses/ports, has correct IPv4 header and TCP pseudo-header checksums (recomputed independently) and acknowledges exactly ISN+1+bytes received so far (+1 after FIN) mod 2^32; every data segment and the FIN are answered; one event per connection with the client's addresses whose payload is a prefix of the stream covering the first pushed segment; each connection's frame list in an interleaving equals its solo list.",
+        bounds_quick="source port 1024 for payloads >256; 5 multi-connection sets",
+        bounds_thorough="all source ports; plus 4 peers",
+        assumptions=COMMON_ASSUME + ["server ISN and IP id are drawn by the implementation and masked", "segments arrive in order and unduplicated (the quantifier's scope)"],
+        deadline_quick=900, deadline_thorough=3400,
+    ),
 }
 
 NOT_APPLICABLE = {}
-HOOK_COMMITS = ["85f692541ea4dfe30d2f7985a9487ffdd59a796e"]
+HOOK_COMMITS = ["85f692541ea4dfe30d2f7985a9487ffdd59a796e", "1ecb6620a893d5573f13cd57c48cf14ef0094ebf"]
